@@ -741,10 +741,35 @@ func AddKindClashes(r *Rng, old, nw *Build) []string {
 			keepSome()
 			nw.Remove(p)
 			if r.Bool() {
-				nw.Entries = append(nw.Entries, BEntry{Path: p, Kind: 'f', Data: r.Bytes(r.Intn(2000))})
+				data := r.Bytes(r.Intn(2000))
+				if files := old.Files(); len(files) > 0 && r.Bool() {
+					// the file that takes the directory's place is an old file renamed (or copied) onto it
+					src := files[r.Intn(len(files))]
+					data = src.Data
+					if r.Bool() && !strings.HasPrefix(src.Path, p+"/") {
+						nw.Remove(src.Path)
+					}
+				}
+				nw.Entries = append(nw.Entries, BEntry{Path: p, Kind: 'f', Data: data})
 				desc = append(desc, "dir->file "+p)
 			} else {
-				nw.Entries = append(nw.Entries, BEntry{Path: p, Kind: 'l', Dest: r.Pick2("moved-out", "nowhere", "/abs")})
+				dest := r.Pick2("moved-out", "nowhere", "/abs", "KEPT")
+				if dest == "KEPT" {
+					// the link points to a directory of the new build that holds the same relative paths as the
+					// directory it replaces (a versioned folder and a `current` link): what is deleted below the old
+					// directory must not be deleted THROUGH the link
+					kept := p + ".kept"
+					dest = kept
+					if i := strings.LastIndex(kept, "/"); i >= 0 {
+						dest = kept[i+1:]
+					}
+					for _, oe := range old.Entries {
+						if strings.HasPrefix(oe.Path, p+"/") && oe.Kind == 'f' && nw.Find(kept+oe.Path[len(p):]) == nil {
+							nw.Entries = append(nw.Entries, BEntry{Path: kept + oe.Path[len(p):], Kind: 'f', Data: oe.Data})
+						}
+					}
+				}
+				nw.Entries = append(nw.Entries, BEntry{Path: p, Kind: 'l', Dest: dest})
 				desc = append(desc, "dir->symlink "+p)
 			}
 		case 'l':
